@@ -4,6 +4,7 @@ import (
 	"encoding/json"
 	"fmt"
 	"reflect"
+	"strconv"
 	"strings"
 
 	"verifharness/docs"
@@ -515,5 +516,160 @@ func c10(r *mon.Run) {
 				t.NontrivialDistinct(1)
 			}
 		}}
-	r.Exec(exh, by, many, rnd, sizedWorkload(r, "sized-arrays-ill-typed", true), nj, erw, oddw, inctx, latew, nearw)
+	// an ill-typed call made AFTER a well-typed call of the same function whose arguments look alike (same kinds, an array that
+	// starts with an element of the right kind): whatever a call remembers about arguments it has accepted - per expression, per
+	// compiled object, per process - must not excuse the next call from its checks
+	type afterCase struct {
+		fn   string
+		good []interface{}
+		pos  int
+		bad  interface{}
+	}
+	goodOf := func(types []string) interface{} {
+		switch types[0] {
+		case "number":
+			return float64(3)
+		case "string":
+			return "abc"
+		case "array[number]":
+			return []interface{}{float64(1), float64(2), float64(3)}
+		case "array[string]":
+			return []interface{}{"a", "b", "c"}
+		case "array":
+			return []interface{}{float64(1), "a", nil}
+		case "object":
+			return map[string]interface{}{"a": float64(1), "b": "x"}
+		case "boolean":
+			return true
+		}
+		return float64(1) // any
+	}
+	badOf := func(types []string) []interface{} {
+		has := func(ty string) bool {
+			for _, x := range types {
+				if x == ty || x == "any" {
+					return true
+				}
+			}
+			return false
+		}
+		var out []interface{}
+		if has("array[number]") && !has("array") {
+			out = append(out, []interface{}{float64(1), "two", float64(3)}, []interface{}{float64(1), nil}, []interface{}{float64(1), float64(2), []interface{}{float64(3)}}, []interface{}{float64(1), true})
+		}
+		if has("array[string]") && !has("array") {
+			out = append(out, []interface{}{"a", float64(2), "c"}, []interface{}{"a", nil}, []interface{}{"a", "b", map[string]interface{}{}})
+		}
+		for _, c := range []struct {
+			ty string
+			v  interface{}
+		}{{"number", float64(4)}, {"string", "abd"}, {"object", map[string]interface{}{"a": float64(1)}}, {"boolean", false}, {"null", nil}} {
+			if !has(c.ty) && !(c.ty == "string" && has("array[string]") && false) {
+				out = append(out, c.v)
+			}
+		}
+		if !has("array") && !has("array[number]") && !has("array[string]") {
+			out = append(out, []interface{}{float64(1)})
+		}
+		return out
+	}
+	var afters []afterCase
+	for _, fn := range ref.FunctionNames() {
+		sg := ref.Signatures[fn]
+		npos := len(sg.Params)
+		if sg.Variadic {
+			npos += 2
+		}
+		par := func(p int) []string {
+			if p >= len(sg.Params) {
+				return sg.Params[len(sg.Params)-1]
+			}
+			return sg.Params[p]
+		}
+		good := make([]interface{}, npos)
+		for p := 0; p < npos; p++ {
+			good[p] = goodOf(par(p))
+		}
+		for p := 0; p < npos; p++ {
+			if par(p)[0] == "expref" {
+				continue
+			}
+			for _, b := range badOf(par(p)) {
+				afters = append(afters, afterCase{fn, good, p, b})
+			}
+		}
+	}
+	afterForms := 5
+	afterw := mon.Workload{Name: "ill-typed-call-after-a-well-typed-call-of-the-same-function", N: len(afters) * afterForms, Batch: 500,
+		Do: func(i int, t *mon.Tally) {
+			c, form := afters[i/afterForms], i%afterForms
+			sg := ref.Signatures[c.fn]
+			elem := func(bad bool) map[string]interface{} {
+				o := map[string]interface{}{"k": float64(1)}
+				for p, g := range c.good {
+					o["p"+strconv.Itoa(p)] = mon.DeepCopy(g)
+				}
+				if bad {
+					o["p"+strconv.Itoa(c.pos)] = mon.DeepCopy(c.bad)
+				}
+				return o
+			}
+			call := func(prefix string) *gen.Expr {
+				args := make([]*gen.Expr, len(c.good))
+				for p := range c.good {
+					if p < len(sg.Params) && sg.Params[p][0] == "expref" {
+						args[p] = gen.ExpRef(gen.Field("k"))
+						if c.fn == "map" {
+							args[p] = gen.ExpRef(gen.Current())
+						}
+						continue
+					}
+					args[p] = gen.Field("p" + strconv.Itoa(p))
+					if prefix != "" {
+						args[p] = gen.Chain(gen.Field(prefix), gen.StField("p"+strconv.Itoa(p)))
+					}
+				}
+				return gen.Func(c.fn, args...)
+			}
+			cx := &caseCtx{r, t, "ill-typed-call-after-a-well-typed-call-of-the-same-function", i}
+			switch form {
+			case 0: // the two calls side by side in one expression, the well-typed one first
+				doc := map[string]interface{}{"g": elem(false), "b": elem(true)}
+				tree := gen.MultiList(call("g"), call("b"))
+				cx.runBoth(tree, gen.SpellTight(tree), doc)
+			case 1: // one call node, evaluated for a well-typed element and then for an ill-typed one (and the other way round)
+				doc := map[string]interface{}{"x": []interface{}{elem(false), elem(false), elem(true), elem(false)}}
+				tree := gen.Chain(gen.Field("x"), gen.StListStar(), gen.Step{K: gen.SFunc, X: call("")})
+				cx.runBoth(tree, gen.SpellTight(tree), doc)
+			case 2:
+				doc := map[string]interface{}{"x": []interface{}{elem(false), elem(true)}}
+				tree := gen.Func("map", gen.ExpRef(call("")), gen.Field("x"))
+				cx.runBoth(tree, gen.SpellTight(tree), doc)
+			default: // one compiled expression (form 3) / the one-shot Search (form 4): a well-typed document, the ill-typed one, the well-typed one again
+				tree := call("")
+				expr := gen.SpellTight(tree)
+				jp, co := apiCompile(expr)
+				if co.Panicked || co.Err != nil {
+					r.Inconclusive("C10 workload expression does not compile: " + expr)
+					return
+				}
+				for step, bad := range []bool{false, false, true, false, true} {
+					d := elem(bad)
+					res := ref.RefSet(tree, d, gen.Quirks{})
+					var o mon.Observed
+					api := "Search (call " + strconv.Itoa(step+1) + " of 5 in a row)"
+					if form == 3 {
+						o = apiJP(jp, mon.DeepCopy(d))
+						api = "Compile+Search (call " + strconv.Itoa(step+1) + " of 5 on one compiled expression)"
+					} else {
+						o = apiSearch(expr, mon.DeepCopy(d))
+					}
+					if !cx.judge(tree, expr, d, api, o, res) {
+						return
+					}
+				}
+			}
+			t.NontrivialDistinct(1)
+		}}
+	r.Exec(exh, by, many, rnd, sizedWorkload(r, "sized-arrays-ill-typed", true), nj, erw, oddw, inctx, latew, nearw, afterw)
 }
